@@ -22,7 +22,7 @@ CLAIMS = {
                 "recursion into the predecessor; the wrapper marks the receiver on every normal path; the warning is printed "
                 "only under _obsolete and not _obsolete_warned and every printing path sets the flag; every list sharing items is "
                 "built by self._new, the sole writer of _predecessor; deepcopy yields fresh items and no predecessor. Decides the "
-                "discipline that makes the behaviour hold for all histories; not the caller-side timing of the warning. Added later: ListOfDicts methods assign only the bookkeeping attributes (no item-derived caches); the predecessor link is tested by identity/instance, never truthiness; the name guard of __getattribute__ is evaluated as a string predicate on every attribute name the class looks up on itself. Round 7: attribute stores on an argument list (caches on the other list of a join) are judged like those on the receiver. Round 8: copy() of an item of unknown kind is shallow for the deepcopy rule. Round 9: language-trap lints (one-shot iterators consumed twice, closures over loop variables, mutable defaults, fromkeys with a mutable value, starred itemgetter results used as sequences) over the property's anchor files.",
+                "discipline that makes the behaviour hold for all histories; not the caller-side timing of the warning. Added later: ListOfDicts methods assign only the bookkeeping attributes (no item-derived caches); the predecessor link is tested by identity/instance, never truthiness; the name guard of __getattribute__ is evaluated as a string predicate on every attribute name the class looks up on itself. Round 7: attribute stores on an argument list (caches on the other list of a join) are judged like those on the receiver. Round 8: copy() of an item of unknown kind is shallow for the deepcopy rule. Round 9: language-trap lints (one-shot iterators consumed twice, closures over loop variables, mutable defaults, fromkeys with a mutable value, starred itemgetter results used as sequences) over the property's anchor files. Round 10: deepcopy does not share a memo between the items.",
         "note": TRUST,
         "technique": "abstract interpretation of write effects on item-dict origins + CFG dominator/post-dominator typestate rules on the flags",
     },
@@ -30,7 +30,7 @@ CLAIMS = {
         "text": "Alias clause decided exactly for all argument combinations: each io.py function declared an alias (via "
                 "format_alias_doc) has the target's signature and forwards every parameter under its own name in a single call "
                 "on every path. Restriction clause decided structurally: liveness and by-name use of columns/keys/dtypes/types in "
-                "all readers and order provenance at positional labelling sites. Not decided: cast-after-read == cast-while-read. Added later: membership filters on the restriction parameter keep the elements IN it; each (name, type) pair of a type map reaches a conversion; parsed Python lists are cast through the converting constructor; liveness counts only effective uses (a self-reassignment is not a use). Round 7: no argument of a foreign parsing call depends on the dtype map; field order inside rows is tracked through itemgetter(*indices). Round 8: `if columns:` tests the restriction argument as given. Round 9: language-trap lints (one-shot iterators consumed twice, closures over loop variables, mutable defaults, fromkeys with a mutable value, starred itemgetter results used as sequences) over the property's anchor files.",
+                "all readers and order provenance at positional labelling sites. Not decided: cast-after-read == cast-while-read. Added later: membership filters on the restriction parameter keep the elements IN it; each (name, type) pair of a type map reaches a conversion; parsed Python lists are cast through the converting constructor; liveness counts only effective uses (a self-reassignment is not a use). Round 7: no argument of a foreign parsing call depends on the dtype map; field order inside rows is tracked through itemgetter(*indices). Round 8: `if columns:` tests the restriction argument as given. Round 9: language-trap lints (one-shot iterators consumed twice, closures over loop variables, mutable defaults, fromkeys with a mutable value, starred itemgetter results used as sequences) over the property's anchor files. Round 10: names.index(x) in a reader (first of a duplicated header name).",
         "note": TRUST,
         "technique": "signature comparison + keyword-forwarding analysis + order-provenance dataflow over reaching definitions",
     },
@@ -39,7 +39,7 @@ CLAIMS = {
                 "dispatched entry points, no write effect on the rendered object in the rendering call graph, every identity-less "
                 "reduction reachable from an entry point guarded against empty operands (obligation moved to call sites for helper "
                 "parameters, also through local function aliases), null-geometry accesses guarded, cell lists padded. Not decided: "
-                "exact widths/wording. Added later: print_ and the renderers use every option they accept; util.upad measures display width only; strict-JSON dumps reachable from rendering are partial operations. Round 7: memo tables keyed by a lossy projection of the dtype in the rendering functions. Round 9: language-trap lints (one-shot iterators consumed twice, closures over loop variables, mutable defaults, fromkeys with a mutable value, starred itemgetter results used as sequences) over the property's anchor files.",
+                "exact widths/wording. Added later: print_ and the renderers use every option they accept; util.upad measures display width only; strict-JSON dumps reachable from rendering are partial operations. Round 7: memo tables keyed by a lossy projection of the dtype in the rendering functions. Round 9: language-trap lints (one-shot iterators consumed twice, closures over loop variables, mutable defaults, fromkeys with a mutable value, starred itemgetter results used as sequences) over the property's anchor files. Round 10: the first line of a split cell is read only under a dominating test about the cell.",
         "note": TRUST,
         "technique": "override-compatibility + effect analysis + guard-dominates-partial-operation (CFG must-facts) + nullable-source rule",
     },
@@ -47,7 +47,7 @@ CLAIMS = {
         "text": "Necessary conditions of Vector.sort/rank/unique for all inputs: stable sort kinds, missing-last assembly with the "
                 "mask computed from the final vector on every exit, every rank branch fills both partitions and unknown methods "
                 "raise, first-occurrence indices sorted, and totality on empty / entirely missing vectors (reductions guarded, "
-                "fixed-width cast width >= 1 by interval analysis). Not decided: that the ranks are the right numbers. Added later: the rank of missing values is built on the number of non-missing elements (or the total length); every result of sort depends on dir. Round 9: language-trap lints (one-shot iterators consumed twice, closures over loop variables, mutable defaults, fromkeys with a mutable value, starred itemgetter results used as sequences) over the property's anchor files. De-duplication by hashing (NaN != NaN) in Vector.unique.",
+                "fixed-width cast width >= 1 by interval analysis). Not decided: that the ranks are the right numbers. Added later: the rank of missing values is built on the number of non-missing elements (or the total length); every result of sort depends on dir. Round 9: language-trap lints (one-shot iterators consumed twice, closures over loop variables, mutable defaults, fromkeys with a mutable value, starred itemgetter results used as sequences) over the property's anchor files. De-duplication by hashing (NaN != NaN) in Vector.unique. Round 10: rank returns an empty result only for an empty vector.",
         "note": TRUST,
         "technique": "CFG must-facts + tiny interval domain for guards; def-use rules for stability and NA-last structure",
     },
@@ -63,7 +63,7 @@ CLAIMS = {
                 "the right keep/drop operator, filter/filter_out sibling agreement against the statement's semantics, drop_na "
                 "any-column accumulation, clamping in head/tail/sample, order-preserving sample, NA mask as its own key "
                 "component in unique (sentinel soundness under IEEE-754), totality on 0-row frames, mask length check. Not "
-                "decided: which rows a given mask selects. Added later: no subsetting method reads the grouping state of an earlier group_by(); default counts replace only a count that was not given; column-position parsers mirror the row-position parsers; every element type whose missing value is not self-equal (NaN, NaT of dates and of timedeltas) is normalised in unique's key tuples. Round 7: np.diff of a key as a sortedness test is judged by the dtype-class dataflow (wraps on integers); key columns are never stacked into one array (common-dtype promotion). Round 9: language-trap lints (one-shot iterators consumed twice, closures over loop variables, mutable defaults, fromkeys with a mutable value, starred itemgetter results used as sequences) over the property's anchor files. The constant substituted for missing keys in unique is not itself missing.",
+                "decided: which rows a given mask selects. Added later: no subsetting method reads the grouping state of an earlier group_by(); default counts replace only a count that was not given; column-position parsers mirror the row-position parsers; every element type whose missing value is not self-equal (NaN, NaT of dates and of timedeltas) is normalised in unique's key tuples. Round 7: np.diff of a key as a sortedness test is judged by the dtype-class dataflow (wraps on integers); key columns are never stacked into one array (common-dtype promotion). Round 9: language-trap lints (one-shot iterators consumed twice, closures over loop variables, mutable defaults, fromkeys with a mutable value, starred itemgetter results used as sequences) over the property's anchor files. The constant substituted for missing keys in unique is not itself missing. Round 10: the boolean-row parser states bool; drop_na iterates the names as given and raises nothing itself; masks built from lists state their dtype.",
         "note": TRUST,
         "technique": "sibling feature records vs spec table, loop-invariant index rule, clamp-dominates-use, sentinel/mask dataflow, guard engine",
     },
@@ -73,7 +73,7 @@ CLAIMS = {
                 "stores only reconciled columns; base-class storage primitives occur only in the six writer methods and unchecked row "
                 "views never escape; generator methods return through the checked constructor; key/attribute bookkeeping is paired on "
                 "add and remove under satisfiable guards; colnames assignment is two-phase; vectors check ndim. Decides that "
-                "rectangularity and key/attribute coherence are preserved by every operation, not that stored values are right. Since the mutation sweep also: the removers delete the placeholder attribute under guards of the right polarity. Round 7: the name reaching dict.__setitem__ is the key argument itself. Round 9: language-trap lints (one-shot iterators consumed twice, closures over loop variables, mutable defaults, fromkeys with a mutable value, starred itemgetter results used as sequences) over the property's anchor files.",
+                "rectangularity and key/attribute coherence are preserved by every operation, not that stored values are right. Since the mutation sweep also: the removers delete the placeholder attribute under guards of the right polarity. Round 7: the name reaching dict.__setitem__ is the key argument itself. Round 9: language-trap lints (one-shot iterators consumed twice, closures over loop variables, mutable defaults, fromkeys with a mutable value, starred itemgetter results used as sequences) over the property's anchor files. Round 10: the attribute placeholder is registered only after the value passed reconciliation.",
         "note": TRUST,
         "technique": "must-pass-through and guard-dominates-site rules on per-function CFGs, who-may-call over resolved callees, store-separation reasoning, escape check via the E3 interpreter",
     },
@@ -82,7 +82,7 @@ CLAIMS = {
                 "on the right keys) at all four sites that build the key->row dict, agreement of the four joins, whole-row indexing "
                 "with corresponding found/src pairs and complementary semi/anti operators, NA value/dtype taken from one column, no "
                 "scalar broadcast to a possibly zero row count, by-tuple handling of renamed keys incl. the reverse join of full_join, "
-                "totality of reachable reductions on empty operands. Not decided: which rows match. Added later: the typestate is interprocedural (required where the key->row dict is built), a join taking right-hand values by row number indexes the very frame the dict was built over, one-element literals are broadcast only to provably >= 1 rows, full_join skips its reverse part only when nothing is left over and hands on swapped by-pairs as sequences. Round 8: every return of _get_join_indices follows the key->row lookup unless a side has no rows. Round 9: language-trap lints (one-shot iterators consumed twice, closures over loop variables, mutable defaults, fromkeys with a mutable value, starred itemgetter results used as sequences) over the property's anchor files.",
+                "totality of reachable reductions on empty operands. Not decided: which rows match. Added later: the typestate is interprocedural (required where the key->row dict is built), a join taking right-hand values by row number indexes the very frame the dict was built over, one-element literals are broadcast only to provably >= 1 rows, full_join skips its reverse part only when nothing is left over and hands on swapped by-pairs as sequences. Round 8: every return of _get_join_indices follows the key->row lookup unless a side has no rows. Round 9: language-trap lints (one-shot iterators consumed twice, closures over loop variables, mutable defaults, fromkeys with a mutable value, starred itemgetter results used as sequences) over the property's anchor files. Round 10: _get_join_indices raises nothing itself; masks built from lists state their dtype.",
         "note": TRUST,
         "technique": "typestate over def-use chains at call sites, sibling agreement, interval lower bounds for broadcast counts, guard engine",
     },
@@ -90,7 +90,7 @@ CLAIMS = {
         "text": "Routing/symmetry of every reader-writer pair decided for all paths and suffixes: where the user's path flows (only "
                 "xopen, makedirs, delegated siblings, or APIs in the external summary table), which file is addressed, and whether "
                 "data is (de)compressed for '', .gz, .bz2, .xz -- writer and reader must agree and honour their docstrings; xopen's "
-                "suffix table; liveness of every option on both sides. Not decided: equality of values after the trip. Added later: every opener in xopen receives **kwargs; every xopen call names its text/binary class; the ListOfDicts CSV reader and writer agree on every parsing-relevant formatting parameter; the re-encoding pass of write_csv has the right polarity, re-opens with the requested encoding and writes back what it read. Round 8: rows returned by csv.reader are not filtered by their contents. Round 9: language-trap lints (one-shot iterators consumed twice, closures over loop variables, mutable defaults, fromkeys with a mutable value, starred itemgetter results used as sequences) over the property's anchor files.",
+                "suffix table; liveness of every option on both sides. Not decided: equality of values after the trip. Added later: every opener in xopen receives **kwargs; every xopen call names its text/binary class; the ListOfDicts CSV reader and writer agree on every parsing-relevant formatting parameter; the re-encoding pass of write_csv has the right polarity, re-opens with the requested encoding and writes back what it read. Round 8: rows returned by csv.reader are not filtered by their contents. Round 9: language-trap lints (one-shot iterators consumed twice, closures over loop variables, mutable defaults, fromkeys with a mutable value, starred itemgetter results used as sequences) over the property's anchor files. Round 10: content filters directly over csv.reader.",
         "note": TRUST,
         "technique": "taint-style path routing over resolved callees with an external summary table; option liveness; sibling agreement of csv dialect/delimiter",
     },
@@ -108,7 +108,7 @@ CLAIMS = {
                 "copied from the statement: minimum group size, under-threshold default, statistic and extra arguments, NA wiring "
                 "(handle_na before any length test; drop_na and is_na().any() of the aggregated column; all/any unfiltered), "
                 "identity-less statistics never bound with nrequired=0, protocol attributes set on every path, first/last = nth(0/-1). "
-                "Decides that the documented default/threshold/NA policy is wired identically in both forms, not the numbers. Added later: every extra statistic argument (ddof) reaches the statistic in every case of both forms (a case taken only for the library default counts as passing it); memoising decorators key on all arguments. Round 7: np.nan_to_num without posinf=/neginf= is not a missing-value substitution. Round 8: exits that skip missing-value handling under an element-type test (timedelta64 is an integer), np.bincount weights, np.unique tie-breaking in mode, explicit index-bounds shortcuts decided exactly (sa/intpred.py). Round 9: language-trap lints (one-shot iterators consumed twice, closures over loop variables, mutable defaults, fromkeys with a mutable value, starred itemgetter results used as sequences) over the property's anchor files. Positional kernels without try/except are decided exactly (position selection, sa/intpred.py).",
+                "Decides that the documented default/threshold/NA policy is wired identically in both forms, not the numbers. Added later: every extra statistic argument (ddof) reaches the statistic in every case of both forms (a case taken only for the library default counts as passing it); memoising decorators key on all arguments. Round 7: np.nan_to_num without posinf=/neginf= is not a missing-value substitution. Round 8: exits that skip missing-value handling under an element-type test (timedelta64 is an integer), np.bincount weights, np.unique tie-breaking in mode, explicit index-bounds shortcuts decided exactly (sa/intpred.py). Round 9: language-trap lints (one-shot iterators consumed twice, closures over loop variables, mutable defaults, fromkeys with a mutable value, starred itemgetter results used as sequences) over the property's anchor files. Positional kernels without try/except are decided exactly (position selection, sa/intpred.py). Round 10: an explicit validation of q rejects no value of [0, 1] (decided exactly); masks built from lists state their dtype.",
         "note": TRUST,
         "technique": "sibling feature-record extraction by ast dataflow + comparison against a spec table; CFG must-pass-through for protocol attributes",
     },
@@ -121,7 +121,7 @@ CLAIMS = {
                 "returns a list mixing element values with None (list(Optional(T))), whose conversion depends on compile order with "
                 "the Numba installed here -- violated at four sites of the pinned tree, recorded as known finding D25 with the failing "
                 "histories. NOT decided: numerical equality of NumPy vs Numba re-implementations (e.g. the mode loops), rounding, the "
-                "on-disk cache. Round 7: no call or keyword dict sets overwrite_input (the Python statistic would reorder the shared column, the compiled twin copies). Round 8: dtype conversions applied on the compiled path only are value-preserving for every class that reaches them. Round 9: language-trap lints (one-shot iterators consumed twice, closures over loop variables, mutable defaults, fromkeys with a mutable value, starred itemgetter results used as sequences) over the property's anchor files. Positional kernels without try/except are decided exactly (position selection, sa/intpred.py).",
+                "on-disk cache. Round 7: no call or keyword dict sets overwrite_input (the Python statistic would reorder the shared column, the compiled twin copies). Round 8: dtype conversions applied on the compiled path only are value-preserving for every class that reaches them. Round 9: language-trap lints (one-shot iterators consumed twice, closures over loop variables, mutable defaults, fromkeys with a mutable value, starred itemgetter results used as sequences) over the property's anchor files. Positional kernels without try/except are decided exactly (position selection, sa/intpred.py). Round 10: the compiled mode kernel counts an element for itself (NaN / NaT are not equal to themselves) -- D29, repaired.",
         "note": TRUST + " The history clause is decided only through the Optional-list condition, which was established by a probe "
                 "(notes/numba_optional_lists.md); other compile-order effects, if any, are outside this technique.",
         "technique": "twin feature-record comparison over the ast, decorator/registry rules, dtype-kind evaluation of use_numba against "
@@ -140,7 +140,7 @@ CLAIMS = {
                 "lists and evaluated over nine kinds with a trusted predicate table encoding NumPy's scalar hierarchy (timedelta64 is an "
                 "integer subtype); value, holding dtype and detector must match each other and the statement; the NA substitution "
                 "predicate equals the inference-ignore predicate and is unconditional; consumers use is_na only. Not decided: which "
-                "dtype NumPy infers for a mixed list; equivalence laws of equal; round trips. Added later: where the substituted missing value comes from (na_value of the known dtype, else guessed from util.unique_types over the WHOLE sequence), _np_array decides the dtype only when none was requested, equal compares only equal lengths, dates are inferred only from a non-empty type set, and/not in the decision lists. Round 7: memo tables keyed by a lossy projection of the dtype (type/num/kind/char); nan_to_num; every return of unique_types passes the None/NaN filter. Round 8: NA-blind exits of Vector methods; the None/NaN substitution is unguarded. Round 9: language-trap lints (one-shot iterators consumed twice, closures over loop variables, mutable defaults, fromkeys with a mutable value, starred itemgetter results used as sequences) over the property's anchor files.",
+                "dtype NumPy infers for a mixed list; equivalence laws of equal; round trips. Added later: where the substituted missing value comes from (na_value of the known dtype, else guessed from util.unique_types over the WHOLE sequence), _np_array decides the dtype only when none was requested, equal compares only equal lengths, dates are inferred only from a non-empty type set, and/not in the decision lists. Round 7: memo tables keyed by a lossy projection of the dtype (type/num/kind/char); nan_to_num; every return of unique_types passes the None/NaN filter. Round 8: NA-blind exits of Vector methods; the None/NaN substitution is unguarded. Round 9: language-trap lints (one-shot iterators consumed twice, closures over loop variables, mutable defaults, fromkeys with a mutable value, starred itemgetter results used as sequences) over the property's anchor files. Round 10: replace_na / drop_na / is_na raise nothing themselves; masks built from lists state their dtype.",
         "note": TRUST + " Predicate/kind table in sa/props/C10.py.",
         "technique": "abstract evaluation of ordered decision lists over a finite kind lattice; predicate-equality of two comprehensions",
     },
@@ -149,7 +149,7 @@ CLAIMS = {
                 "importer twins from_arrow/from_pandas agree on mask source, object fallback, guarded upcast and masked NA store; NA "
                 "value/dtype pairing; None defaults when ListOfDicts/JSON records lack keys; and the contradicted-belief rule that a "
                 "dtype decision must not depend on one fixed element (reports the element-0 string sniffing in Vector._np_array as a "
-                "known finding). Not decided: the values and dtypes that come back. Round 7: no value becomes None/NaN under an isfinite()/isinf() test; dtype sniffing also when the fixed element is read in the assigned value. Round 8: no integer dtype under a bare isinstance(x, int). Round 9: language-trap lints (one-shot iterators consumed twice, closures over loop variables, mutable defaults, fromkeys with a mutable value, starred itemgetter results used as sequences) over the property's anchor files.",
+                "known finding). Not decided: the values and dtypes that come back. Round 7: no value becomes None/NaN under an isfinite()/isinf() test; dtype sniffing also when the fixed element is read in the assigned value. Round 8: no integer dtype under a bare isinstance(x, int). Round 9: language-trap lints (one-shot iterators consumed twice, closures over loop variables, mutable defaults, fromkeys with a mutable value, starred itemgetter results used as sequences) over the property's anchor files. Round 10: no exporter sets allow_nan=False on its own; _to_columns takes keys whatever their values.",
         "note": TRUST,
         "technique": "must-sanitise (tolist) taint rule, sibling feature records with branch facts, fixed-element-dependence rule",
     },
@@ -158,7 +158,7 @@ CLAIMS = {
                 "pass, clamping and no possibly-zero negated slice bound in head/tail/sample, insert delivers its item on every CFG path, "
                 "caller-supplied dicts are coerced before reaching the as-is constructor, sort is multi-pass stable with reversed key "
                 "order / reverse=dir<0 / None-flag keys / validated directions, unique yields under a not-seen guard that records the key. "
-                "Not decided: full sequence equality with list operations. Added later: the constructor converts every item unless the caller passes as_is; unique records the key values themselves (no lossy reduction); guard-clause forms accepted. Round 7: every returning path of a decorator wrapper calls the wrapped function; fill_missing_keys yields only after the fill loop or under a nothing-missing test. Round 8: per-call memos keyed by an order-blind summary; the index of insert reaches list.insert unadjusted. Round 9: language-trap lints (one-shot iterators consumed twice, closures over loop variables, mutable defaults, fromkeys with a mutable value, starred itemgetter results used as sequences) over the property's anchor files.",
+                "Not decided: full sequence equality with list operations. Added later: the constructor converts every item unless the caller passes as_is; unique records the key values themselves (no lossy reduction); guard-clause forms accepted. Round 7: every returning path of a decorator wrapper calls the wrapped function; fill_missing_keys yields only after the fill loop or under a nothing-missing test. Round 8: per-call memos keyed by an order-blind summary; the index of insert reaches list.insert unadjusted. Round 9: language-trap lints (one-shot iterators consumed twice, closures over loop variables, mutable defaults, fromkeys with a mutable value, starred itemgetter results used as sequences) over the property's anchor files. Round 10: an explicit validation of insert's index rejects no integer (decided exactly).",
         "note": TRUST,
         "technique": "CFG path rule (must-yield), interval lower bounds for slice bounds, branch-fact sibling comparison, coercion-idiom typestate",
     },
@@ -166,7 +166,7 @@ CLAIMS = {
         "text": "Necessary conditions of ListOfDicts joins/aggregate for all inputs: first-match lookup built over reversed(other), "
                 "inner/left twins strip right-hand key names and update only the left item with a fresh dict (no write effect on the "
                 "right operand), semi/anti complementary tests on one id set, full_join's reverse join gets role-swapped by-tuples and "
-                "unused right items are found by synthetic id, aggregate groups/buckets/sort use one key extraction. Not decided: which items match. Added later: full_join skips its reverse part only when no right item is left over, renames differently named keys in the reverse part and hands on swapped by-pairs as sequences. Round 8: every exit of semi_join / anti_join follows the id set. Round 9: language-trap lints (one-shot iterators consumed twice, closures over loop variables, mutable defaults, fromkeys with a mutable value, starred itemgetter results used as sequences) over the property's anchor files.",
+                "unused right items are found by synthetic id, aggregate groups/buckets/sort use one key extraction. Not decided: which items match. Added later: full_join skips its reverse part only when no right item is left over, renames differently named keys in the reverse part and hands on swapped by-pairs as sequences. Round 8: every exit of semi_join / anti_join follows the id set. Round 9: language-trap lints (one-shot iterators consumed twice, closures over loop variables, mutable defaults, fromkeys with a mutable value, starred itemgetter results used as sequences) over the property's anchor files. Round 10: group_by raises nothing itself.",
         "note": TRUST,
         "technique": "def-use rules on lookup construction, sibling comparison, effect analysis (E3) for the right operand, operand-role rule for full_join",
     },
@@ -183,7 +183,7 @@ CLAIMS = {
                 "right parameter and are complete; each regex function calls re.<own name> identically in scalar and vector branch "
                 "over the non-missing positions; each dt extractor reads the datetime member of its own name (kind from the stdlib); "
                 "the _pull_* helpers share one skeleton; np.vectorize applications are dominated by the all-missing early return; early "
-                "returns convert like the final return. Not decided: calendar arithmetic, strftime/regex semantics. Added later: from_string narrows to dates only when every time-of-day extractor (hour, minute, second, microsecond) is zero for all parsed values. Round 7: every return of a regex function's vector branch hands back the default-filled (or NA-masked) array. Round 8: every result of dt.to_string is produced by strftime. Round 9: language-trap lints (one-shot iterators consumed twice, closures over loop variables, mutable defaults, fromkeys with a mutable value, starred itemgetter results used as sequences) over the property's anchor files. Vector arguments of dt.replace are read at the row's own position.",
+                "returns convert like the final return. Not decided: calendar arithmetic, strftime/regex semantics. Added later: from_string narrows to dates only when every time-of-day extractor (hour, minute, second, microsecond) is zero for all parsed values. Round 7: every return of a regex function's vector branch hands back the default-filled (or NA-masked) array. Round 8: every result of dt.to_string is produced by strftime. Round 9: language-trap lints (one-shot iterators consumed twice, closures over loop variables, mutable defaults, fromkeys with a mutable value, starred itemgetter results used as sequences) over the property's anchor files. Vector arguments of dt.replace are read at the row's own position. Round 10: the .dt / .re / .str properties raise nothing themselves.",
         "note": TRUST,
         "technique": "registry/forwarding rules, sibling skeleton comparison, guard-dominates-partial-operation, must-convert-on-every-return rule",
     },
